@@ -27,7 +27,8 @@ REQUIRED = ['runs', 'preempted_runs', 'activations_checked', 'changes_checked_mu
             'monotonic_sequences', 'pb_runs', 'runs_with_shared_parameters']
 
 N = {'quick': 160, 'thorough': 20000}
-MODS = {'m0': ['x', 'y'], 'm1': ['x', 'y', 'z']}
+# names chosen so that one specifier is a prefix of another (m1 / m10, _x / _x2): scopes are compared exactly
+MODS = {'m0': ['x', 'y', 'x2'], 'm1': ['x', 'y', 'z'], 'm10': ['x']}
 
 
 def plan(tier, seed, scale=1.0):
@@ -78,7 +79,7 @@ class World:
             seq = [rng.choice(mine) for _ in range(2 if small else rng.randint(2, 6))] if mine else []
             upd.append([[mn, p] for mn, p in seq])
         conns = []
-        scopes = [None, 'm0', 'm1', 'm0:_x', 'm1:_y', 'm1:_z', 'm0:_y']
+        scopes = [None, 'm0', 'm1', 'm0:_x', 'm1:_y', 'm1:_z', 'm0:_y', 'm0:_x2', 'm10', 'm10:_x']
         for c in range(nconn):
             reqs = []
             live = []
@@ -101,7 +102,7 @@ class World:
         if not small and rng.random() < 0.25:
             # contended scope: one connection leaves (disconnect / *IDN? / deactivate) a narrow scope which another one
             # enters at the same time, while the parameters in it keep changing
-            scope = rng.choice(['m0', 'm1', 'm0:_x', 'm1:_y', 'm1:_z'])
+            scope = rng.choice(['m0', 'm1', 'm0:_x', 'm1:_y', 'm1:_z', 'm0:_x2', 'm10'])
             inside = [pp for pp in params if self.covers(scope, *pp)]
             conns = [[['activate', scope], [rng.choice(['disconnect', 'disconnect', 'idn', 'deactivate']), scope if False else None]],
                      [['activate', scope]]] + conns[:1]
